@@ -4,8 +4,13 @@ from . import common as C
 from .gens import *
 
 PROP = "C08"
-LEAN_MODULE = "RSV.Props.C08"
-RULE = ("proof: the per-lane recipes - PSHUFB nibble lookup on the regenerated mulTableLow/High (C08_nibble) and "
+LEAN_MODULE = "RSV.Props.C08all"
+RULE = ("proof: C08_asm_sound - a reflective checker for the TEXT of the generated amd64 kernels (parsed from "
+        "galois_gen_amd64.s / galois_gen_nopshufb_amd64.s on every run) with a soundness theorem: an accepted kernel, run by "
+        "a byte-level semantics of its 21 instructions on ANY environment meeting the calling contract (matrix expanded as "
+        "genCodeGenMatrix / genGFNIMatrix do, slices long enough), terminates without an out-of-bounds access and leaves in "
+        "output i, on [start, start+count), exactly (old output if Xor) xor sum_j A[i][j]*in_j, everything else unchanged - "
+        "for every matrix, input, start and n; all 600 + 400 kernels must be accepted on every run; the per-lane recipes - PSHUFB nibble lookup on the regenerated mulTableLow/High (C08_nibble) and "
         "GF2P8AFFINEQB on the regenerated bit matrices (C08_affine) - equal the field product for all 65,536 (coefficient, "
         "byte) pairs; returned-count arithmetic (C08_count) and slot layout of the expanded matrices. Execution tie: EVERY "
         "generated kernel entry point (AVX2, AVX512+GFNI, AVX+GFNI; overwrite and xor; 1..10 x 1..10) is called through its "
@@ -15,10 +20,13 @@ RULE = ("proof: the per-lane recipes - PSHUFB nibble lookup on the regenerated m
         "kernels for all 256 coefficients and every instruction-set switch; Leopard GF8/GF16 butterfly and multiply "
         "kernels against the table-driven definition; the nopshufb build's kernel set too. Expected bytes come from a "
         "first-principles shift-and-reduce product, not from the package's tables. A case = one kernel call or lane sweep")
-ASSUMPTIONS = ["the assembly is tied by execution, not by proof: complete over (coefficient, byte value, lane residue) per slot, "
-               "sound if each kernel is data-oblivious and lane-uniform - an assumption about the assembly",
+ASSUMPTIONS = ["generated matrix kernels: proved from their text under the modelled instruction semantics (RSV.Model.Asm.stepInstr: "
+               "MOVQ ADDQ SHRQ TESTQ DECQ JZ JNZ RET VZEROUPPER VMOVDQU(64) VPSHUFB VPXOR VXORPD VPAND VPSRLQ VPBROADCASTB "
+               "VBROADCASTSD VBROADCASTF32X2 VGF2P8AFFINEQB(.BCST)) - that semantics and the Plan 9 text parser are trusted and "
+               "cross-checked by the lane-exhaustive execution on this CPU; the hand-written multiply/xor kernels and the "
+               "Leopard butterfly kernels are tied by execution only",
                "only the instruction sets of this CPU are executed (it has SSE2, SSSE3, AVX2, AVX512F/BW/VL/DQ, GFNI)"]
-TRUSTED = []
+TRUSTED = ["instruction semantics RSV.Model.Asm.stepInstr and the kernel-text parser (vlib/asm.py, RSV.Model.Asm.parseKernel)"]
 
 FAMILIES = ["avx2", "gfni", "avxgfni"]
 
@@ -91,5 +99,47 @@ def execute(ops, ctx):
             res["mismatches"].append({"kind": "go-vs-model", "ops": [l], "go": g, "model": e, "cat": m["cat"], "build": "nopshufb"})
         elif g and g.startswith("ok"):
             res["nontrivial"].add(("nopshufb", l))
-    skipped = sum(1 for (l, m) in ops if False)
+    # the TEXT of every generated kernel through the proved reflective checker (C08_asm_sound): an accepted kernel computes
+    # the matrix product on [start, start+count) and touches nothing else, for every matrix, input, start and n
+    from . import asm
+    import random
+    import os
+    klines = asm.lines()
+    nplines = asm.lines(os.path.join(asm.REPO, "galois_gen_nopshufb_amd64.s"))     # the nopshufb build's own kernel set
+    problems = []
+    if len(klines) != 600 or len(nplines) != 400:
+        problems.append(f"expected 600 + 400 generated kernels in galois_gen_amd64.s / galois_gen_nopshufb_amd64.s, "
+                        f"the extractor found {len(klines)} + {len(nplines)}")
+    npv = C.run_ops(ctx["driver"], ["asmcheck " + l for l in nplines])
+    for l, v in zip(nplines, npv):
+        res["evaluations"] += 1
+        if v == "ok":
+            res["nontrivial"].add(("asm-nopshufb", l.split()[0]))
+        else:
+            problems.append(f"assembly checker rejects {l.split()[0]} of the nopshufb build: {v}")
+    verdicts = C.run_ops(ctx["driver"], ["asmcheck " + l for l in klines])
+    res.setdefault("dist", {})["asm-kernels-checked"] = len(klines) + len(nplines)
+    res.setdefault("extra", {})["asm_kernels"] = len(klines) + len(nplines)
+    rng = random.Random(ctx["seed"])
+    for l, v in zip(klines, verdicts):
+        res["evaluations"] += 1
+        if v == "ok":
+            res["nontrivial"].add(("asm", l.split()[0]))
+            continue
+        name, fam, xor, ni, no = l.split()[:5]
+        problems.append(f"assembly checker rejects {name}: {v}")
+        # look for a concrete failing call of this kernel on the real CPU
+        probe = [f"kernlane {fam} {xor} {ni} {no}"]
+        for _ in range(300):
+            start = rng.choice([0, 32, 64, 96, 200, rng.randint(0, 500)])
+            size = start + rng.choice([32, 64, 96, 256, 1000, rng.randint(0, 2000)])
+            stop = rng.choice([size, size, rng.randint(start, size)])
+            probe.append(f"kern {fam} {xor} {ni} {no} {size} {start} {stop} {rng.randrange(1, 1 << 30)}")
+        go = C.run_ops(ctx["harness"], probe)
+        lean = [C.split_flags(x)[0] for x in C.run_ops(ctx["driver"], probe)]
+        for o, g, e in zip(probe, go, lean):
+            if g != "skip" and g != e:
+                res["mismatches"].append({"kind": "kernel-wrong (checker rejected " + name + ": " + str(v) + ")", "ops": [o], "go": g, "model": e, "cat": "asm-probe"})
+                break
+    res["proof_problems"] = problems
     return res
